@@ -23,7 +23,7 @@ from ..templates import TemplateHooks, make_hole, to_term, show
 from ..galg import (GraphHooks, Evaluator, evaluate_set, deep_snapshot,
                     all_graphs, all_subsets, NotEvaluable, GraphError, CG,
                     g_sccs, g_reach, g_reversed, _freeze)
-from ..report import Finding, RuleResult, floor
+from ..report import Finding, RuleResult, floor, Attempts
 
 PROP = 'C02'
 
@@ -1442,7 +1442,24 @@ class _Goodset(object):
 
 
 def _eval_paths(res, ev, I, choice=False):
-    """value returned on the path whose condition holds"""
+    """value returned on the path whose condition holds.  A summary that
+    takes an arbitrary element (`next(iter(C))`) is evaluated under both
+    resolutions of the choice (every candidate contributes / only what all
+    candidates agree on); if they differ the answer depends on the element
+    picked"""
+    ev.choice_mode = 'union'
+    a = _eval_paths1(res, ev, I, choice)
+    if ev.choice_points:
+        ev.choice_mode = 'inter'
+        b = _eval_paths1(res, ev, I, choice)
+        ev.choice_mode = 'union'
+        if a != b:
+            return 'depends on which element of the component is taken ' \
+                   '(%r / %r)' % (a, b)
+    return a
+
+
+def _eval_paths1(res, ev, I, choice=False):
     for (p, v) in res:
         if isinstance(v, Raise):
             continue
@@ -1485,9 +1502,9 @@ def _choice_eval(ev, c, sym):
 
 def run(prog, tier, seed):
     P = discover(prog)
-    results = [rule_ltl0(prog, P), rule_ltl1(prog, P), rule_ltl2(prog, P),
-               rule_ltl3(prog, P),
-               rule_ltl4(prog, P), rule_ltl5(prog, P)]
+    T = Attempts()
+    results = T.results(*[T(fn, prog, P) for fn in (
+        rule_ltl0, rule_ltl1, rule_ltl2, rule_ltl3, rule_ltl4, rule_ltl5)])
     expl = ('The parts of the LTL tableau procedure are discovered from '
             'LTL.modelcheck and analysed separately: (1) the E-procedure '
             'receives the path formula under an odd number of negations and '
@@ -1509,4 +1526,4 @@ def run(prog, tier, seed):
                    'when a member is processed',
                    'graph primitives as documented (C12/C13)',
                    'formulas compare by structure (C09/C11)']
-    return results, expl, assumptions, {}
+    return results, expl, assumptions, T.extra()
